@@ -317,6 +317,9 @@ pub struct Conn {
     pub forgotten: bool,
     pub local_close_at: Option<u64>,
     pub created_ns: u64,
+    /// 1 for the first connection object an endpoint created for this pair id, 2.. for zombies
+    /// born later from delayed copies of the client's first Initial
+    pub creation_idx: u32,
     pub tcfg: TcfgP,
     /// conn-local per-step flags
     pub blocked_transmit_cap: bool,
@@ -402,7 +405,8 @@ pub struct World {
     /// recent genuine datagrams (for splices)
     pub recent: Vec<Dgram>,
     /// gid -> whether a delivery of it was fully authenticated already
-    pub counted: BTreeMap<u64, bool>,
+    /// genuine datagram id -> (every packet of it was authenticated, time of that first delivery)
+    pub counted: BTreeMap<u64, (bool, u64)>,
     pub clock: Arc<std::sync::atomic::AtomicU64>,
     pub led: Ledger,
     pub mon: Mon,
@@ -631,6 +635,7 @@ impl World {
                 forgotten: false,
                 local_close_at: None,
                 created_ns: self.now,
+                creation_idx: self.mon.pair_creations.get(&(from, pair)).copied().unwrap_or(1),
                 tcfg,
                 blocked_transmit_cap: false,
                 cid_len,
@@ -967,7 +972,7 @@ impl World {
                     Some(DatagramEvent::NewConnection(_)) => "incoming".into(),
                     Some(DatagramEvent::Response(_)) => "response".into(),
                 };
-                tr.push(format!("{} rx {ei} from {} size={} first={:02x} -> {kind}", self.now, d.src, d.data.len(), d.data[0]));
+                tr.push(format!("{} rx {ei} from {} size={} first={:02x} gid={} copy={}{} -> {kind}", self.now, d.src, d.data.len(), d.data[0], d.gid, d.copy, if d.forged { " forged" } else { "" }));
             }
         }
         match ev {
@@ -987,8 +992,11 @@ impl World {
                     if !d.forged {
                         let npk = crate::wire::split_types(&d.data).len() as u64;
                         let authed = conn.c.verif_probe().authed_packets - pre_authed;
+                        // (a zombie connection created after the first delivery is another
+                        // connection: for it the datagram is new)
+                        let zombie = |first_ns: u64| conn.creation_idx >= 2 && conn.created_ns > first_ns;
                         match self.counted.get(&d.gid).copied() {
-                            Some(true) => {
+                            Some((true, first_ns)) if !zombie(first_ns) => {
                                 // this exact datagram was fully processed before: a second
                                 // delivery must change no frame counter
                                 self.mon.cnt.inc("c04.duplicate_delta_checks");
@@ -998,7 +1006,7 @@ impl World {
                                 }
                             }
                             _ => {
-                                self.counted.insert(d.gid, authed >= npk && npk > 0);
+                                self.counted.insert(d.gid, (authed >= npk && npk > 0, self.now));
                             }
                         }
                     } else if d.untouched().is_empty() {
@@ -1032,7 +1040,7 @@ impl World {
             }
             Some(DatagramEvent::NewConnection(incoming)) => {
                 if !d.forged {
-                    self.counted.insert(d.gid, true);
+                    self.counted.insert(d.gid, (true, self.now));
                 }
                 self.mon.after_deliver(ei, &d, None, &self.eps[ei], &mut self.led);
                 self.on_incoming(ei, incoming, &mut buf);
@@ -1141,6 +1149,7 @@ impl World {
                         forgotten: false,
                         local_close_at: None,
                         created_ns: self.now,
+                        creation_idx: self.mon.pair_creations.get(&(ei, pair)).copied().unwrap_or(1),
                         tcfg: spec.tcfg.clone(),
                         blocked_transmit_cap: false,
                         cid_len,
